@@ -326,3 +326,187 @@ def _branch_test(top, inner):
         else:
             return None
     return None
+
+
+# ---------------------------------------------------------------------------
+# NORM-12: attributes that can hold None are not used as strings unguarded
+# ---------------------------------------------------------------------------
+NORM12_REASONED = {
+    ("BracketNode.__init__", "parent_indentation + config.indentation"):
+        'reached only when parent.type is SUITE: the ancestor search stops at once for a node without a `leaf` that is no '
+        'BracketNode, so parent_indentation is the suite\'s own string',
+    ("BracketNode.__init__", "self.indentation += config.indentation"):
+        'guarded by `self.indentation == parent_indentation + config.indentation`, which is False for None',
+    ("PEP8Normalizer._visit_node", "self._indentation_tos.indentation + self._config.indentation"):
+        'a suite starts at statement level: the top of the stack is the root or a suite node (a pending backslash node is '
+        'popped on the line above), whose indentation is built from strings only',
+}
+
+
+def norm_12(ctx, rep):
+    rep.rule('NORM-12', 'the indentation attributes of the PEP 8 indentation stack can be None (tabs: no visual indentation); '
+                        'a value read from them is measured with len(), concatenated or searched only where it is known not to '
+                        'be None (an `is None` test on it, or the node is known to be a suite node)')
+    from ..facts import facts_at
+    mod = ctx.prog.mod(PEP8)
+    nullable_attrs = set()
+    for f in mod.funcs.values():
+        for n in walk_own(f.node):
+            if isinstance(n, ast.Assign) and isinstance(n.value, ast.Constant) and n.value.value is None:
+                for t in n.targets:
+                    if isinstance(t, ast.Attribute) and 'indentation' in t.attr:
+                        nullable_attrs.add(t.attr)
+    if not nullable_attrs:
+        rep.note('NORM-12: no indentation attribute is ever set to None')
+        rep.ob('NORM-12', PEP8, '<module>', 'no None-able indentation attribute', True)
+        return
+    rep.stat('none_able_attributes', sorted(nullable_attrs))
+    n_sites = 0
+    for f in mod.funcs.values():
+        # locals that may carry such a value
+        nullable_locals = set()
+        for _ in range(3):
+            for n in walk_own(f.node):
+                if isinstance(n, ast.Assign) and len(n.targets) == 1 and isinstance(n.targets[0], ast.Name):
+                    v = n.value
+                    if (isinstance(v, ast.Attribute) and v.attr in nullable_attrs and not norm(v.value).endswith('config')) or \
+                            (isinstance(v, ast.Name) and v.id in nullable_locals):
+                        nullable_locals.add(n.targets[0].id)
+
+        import re as _re
+
+        def attr_source(e):
+            # the attribute of an indentation-stack node (not of the configuration object, whose indentation is the
+            # string the user chose; not of what get_latest_suite_node() returns: a suite node by construction)
+            if not (isinstance(e, ast.Attribute) and e.attr in nullable_attrs):
+                return False
+            recv = norm(e.value)
+            if _re.search(r'(^|\.)_?config$', recv):
+                return False
+            if isinstance(e.value, ast.Call) and isinstance(e.value.func, ast.Attribute) and e.value.func.attr == 'get_latest_suite_node':
+                return False
+            return True
+
+        def reaching(name_node):
+            """values that can reach this use of a local: the nearest assignment that precedes it in its own or an
+            enclosing block; when that is inside a compound statement, every assignment in that statement"""
+            from ..model import block_of
+            child = name_node
+            while not isinstance(child, ast.stmt):
+                child = child._parent
+            while child is not None and child is not f.node:
+                blk = block_of(child)
+                idx = [b is child for b in blk].index(True) if blk else 0
+                for st in reversed(blk[:idx]):
+                    vals = [a.value for a in ast.walk(st) if isinstance(a, ast.Assign)
+                            and any(isinstance(t, ast.Name) and t.id == name_node.id for t in a.targets)]
+                    if vals:
+                        return vals
+                child = getattr(child, '_parent', None)
+                while child is not None and not isinstance(child, ast.stmt) and child is not f.node:
+                    child = getattr(child, '_parent', None)
+            return []
+
+        def source(e, depth=0):
+            if attr_source(e):
+                return e
+            if isinstance(e, ast.Name) and e.id in nullable_locals and depth < 3:
+                vals = reaching(e)
+                if not vals:
+                    return e
+                if any(attr_source(v) or (isinstance(v, ast.Name) and source(v, depth + 1) is not None) for v in vals):
+                    return e
+            return None
+        uses = []
+        for n in walk_own(f.node):
+            if isinstance(n, ast.Call) and isinstance(n.func, ast.Name) and n.func.id == 'len' and n.args and source(n.args[0]) is not None:
+                uses.append((n, n.args[0], 'len()'))
+            elif isinstance(n, ast.BinOp) and isinstance(n.op, ast.Add):
+                for side in (n.left, n.right):
+                    if source(side) is not None:
+                        uses.append((n, side, '+'))
+            elif isinstance(n, ast.AugAssign) and isinstance(n.op, ast.Add) and source(n.target) is not None:
+                uses.append((n, n.target, '+='))
+        for node, src, how in uses:
+            n_sites += 1
+            text = norm(src)
+            facts = facts_at(node, f.node)
+            safe = None
+            if (text + ' is None', False) in facts:
+                safe = '`%s is not None` holds here' % text
+            elif isinstance(src, ast.Attribute):
+                recv = norm(src.value)
+                if ('%s.type == IndentationTypes.SUITE' % recv, True) in facts:
+                    safe = '%s is a suite node (its indentation is built from strings)' % recv
+            if safe is None and isinstance(src, ast.Name):
+                # the local was copied from recv.attr: a suite fact on that receiver counts as well
+                for a in walk_own(f.node):
+                    if isinstance(a, ast.Assign) and len(a.targets) == 1 and isinstance(a.targets[0], ast.Name) \
+                            and a.targets[0].id == src.id and isinstance(a.value, ast.Attribute):
+                        recv = norm(a.value.value)
+                        if ('%s.type == IndentationTypes.SUITE' % recv, True) in facts:
+                            safe = '%s is a suite node' % recv
+            key = (f.qual, norm(node))
+            if safe is None and key in NORM12_REASONED:
+                safe = NORM12_REASONED[key]
+            rep.ob('NORM-12', PEP8, f.qual, '%s of %s in `%s`' % (how, text, norm(node)[:90]), safe is not None,
+                   '%s may be None here (indentation containing tabs): %s raises TypeError and the style check fails on any '
+                   'continuation line' % (text, how), reason=safe)
+    rep.minimum('NORM-12', 4)
+
+
+# ---------------------------------------------------------------------------
+# NORM-11: per-line state of the prefix splitter is reset with the line
+# ---------------------------------------------------------------------------
+def norm_11(ctx, rep):
+    rep.rule('NORM-11', 'in prefix.split_prefix every variable that takes part in the column of a prefix part and survives a '
+                        'loop iteration (other than the running offset) is re-assigned where the line number is incremented: '
+                        'state that belongs to the first line (the zero width of a BOM) must not shift the columns of later lines')
+    PREFIX = 'parso/python/prefix.py'
+    f = ctx.prog.func(PREFIX, 'split_prefix')
+    params = f.params()
+    line_var = col_var = None
+    for n in walk_own(f.node):
+        if isinstance(n, ast.Assign) and isinstance(n.targets[0], ast.Tuple) and isinstance(n.value, ast.Name) \
+                and n.value.id in params and len(n.targets[0].elts) == 2:
+            line_var, col_var = [e.id for e in n.targets[0].elts]
+    if line_var is None:
+        raise AnalysisError('NORM-11: `line, column = start_pos` not found in split_prefix')
+    loops = [n for n in walk_own(f.node) if isinstance(n, ast.While)]
+    if len(loops) != 1:
+        raise AnalysisError('NORM-11: expected one loop in split_prefix')
+    loop = loops[0]
+    inc_blocks = []
+    for n in ast.walk(loop):
+        if isinstance(n, ast.If) and any(isinstance(s, ast.AugAssign) and isinstance(s.target, ast.Name) and s.target.id == line_var
+                                         for s in n.body):
+            inc_blocks.append(n)
+    if len(inc_blocks) != 1:
+        raise AnalysisError('NORM-11: the block that increments the line was not found')
+    reset = set()
+    for s in inc_blocks[0].body:
+        tgs = [s.target] if isinstance(s, ast.AugAssign) else s.targets if isinstance(s, ast.Assign) else []
+        for t in tgs:
+            for x in ast.walk(t):
+                if isinstance(x, ast.Name) and isinstance(x.ctx, ast.Store):
+                    reset.add(x.id)
+    offset_vars = {n.targets[0].id for n in ast.walk(loop) if isinstance(n, ast.Assign) and isinstance(n.targets[0], ast.Name)
+                   and isinstance(n.value, ast.Call) and isinstance(n.value.func, ast.Attribute) and n.value.func.attr == 'end'}
+    per_iteration = {t.id for s in loop.body if isinstance(s, ast.Assign) for t in s.targets if isinstance(t, ast.Name)}
+    per_iteration -= offset_vars
+    n_sites = 0
+    for n in walk_own(f.node):
+        if not (isinstance(n, ast.Call) and norm(n.func) == 'PrefixPart'):
+            continue
+        sp = next((k.value for k in n.keywords if k.arg == 'start_pos'), None)
+        if not (isinstance(sp, ast.Tuple) and len(sp.elts) == 2):
+            raise AnalysisError('NORM-11: PrefixPart without a literal (line, column) start_pos')
+        names = {x.id for x in ast.walk(sp.elts[1]) if isinstance(x, ast.Name)} - {'int', 'len', 'bool'}
+        carried = names - offset_vars - per_iteration
+        bad = sorted(carried - reset)
+        n_sites += 1
+        rep.ob('NORM-11', PREFIX, f.qual, 'column %s' % norm(sp.elts[1]), not bad,
+               '%s shifts the column of every prefix part but is not reset when the line is incremented: parts on later '
+               'lines are displaced (a comment at the start of line two of a prefix that begins with a BOM gets column -1)' % bad,
+               reason='carried state %s is re-assigned with the line' % sorted(carried))
+    rep.minimum('NORM-11', 2)
